@@ -24,6 +24,29 @@ def owned_canonical(t):
     return False
 
 
+def reads_field(crate, path, f, two, depth=0):
+    """the method reads field f of self (and of the other operand), directly or through a crate method
+    it hands self (and the other operand) to"""
+    an = crate.an(path)
+
+    def touches(A):
+        return any(r == A + "." + f or r.startswith(A + "." + f + ".") or r.startswith(A + "." + f + "#") for r in an.regions)
+    if touches("A1") and (not two or touches("A2")):
+        return True
+    if depth >= 2:
+        return False
+    for ev in an.events:
+        if ev["k"] != "call" or not ev["fn"]:
+            continue
+        tgt = ev["fn"].get("resolved") if ev["fn"].get("resolved_local") else None
+        if tgt is None or tgt not in crate.prog.fns or tgt == path:
+            continue
+        roots = [an.region_of_pointer(a) if a[0] != "at" else a[1] for a in ev["args"]]
+        if roots[:1] == ["A1"] and (not two or roots[1:2] == ["A2"]) and reads_field(crate, tgt, f, two, depth + 1):
+            return True
+    return False
+
+
 def rule_fields(crate, prop, tier):
     o = Obl("FIELDS")
     prog = crate.prog
@@ -54,9 +77,7 @@ def rule_fields(crate, prop, tier):
             an = crate.an(paths[0])
             two = mname in ("eq", "partial_cmp", "cmp")
             for f in fields:
-                ok = any(r == "A1." + f or r.startswith("A1." + f + ".") or r.startswith("A1." + f + "#") for r in an.regions)
-                if two:
-                    ok = ok and any(r == "A2." + f or r.startswith("A2." + f + ".") or r.startswith("A2." + f + "#") for r in an.regions)
+                ok = reads_field(crate, paths[0], f, two)
                 o.check(ok, prog.pretty[paths[0]], "reads:" + f, "%s of %s does not read field `%s`%s" % (mname, nm, f, " of both operands" if two else ""),
                         prog.fns[paths[0]]["span"])
             if mname == "clone":
@@ -117,7 +138,7 @@ def rule_leak(crate, prop, tier):
                 nsrc += 1
                 ok = _elements_moved_out(crate, an, ev)
                 o.check(ok, who, "set-len-0-after-move-out", "set_len(0) forgets elements that were not moved out", ev["span"])
-    return o.report(floors={"bodies scanned": (o.instances, 600)}, note="leak sources examined=%d" % nsrc)
+    return o.report(floors={"bodies scanned": (o.instances, 300)}, note="leak sources examined=%d" % nsrc)
 
 
 def _same_wrapper(an, new_ev, a0):
